@@ -111,8 +111,10 @@ func progOf(s *Sx) P {
 			if t.IsSuccess() {
 				return s + 1, fp.Success[any](fp.Tuple1[any]{I1: t.Get()})
 			}
-			if c, ok := t.Failed().Get().(CodeErr); ok {
-				return s + 2, fp.Success[any](int(c))
+			if f := t.Failed(); f.IsSuccess() {
+				if c, ok := f.Get().(CodeErr); ok {
+					return s + 2, fp.Success[any](int(c))
+				}
 			}
 			return s + 3, t
 		})
